@@ -4,9 +4,11 @@
    Writes may carry ANY mtime (WriteAt/TouchAt), older or newer than what is recorded; the hypothesis
    FS-fresh is [hist_ok]: one file never carries the same mtime with two different contents
    (forward-clock histories satisfy it: C03_forward_clock_is_fresh).
-   The theorems C04_getargs_* at the end are about whole runs over tasks that take values from other tasks
-   (getargs / result_dep; Model/Getargs.v). *)
-From DoitV Require Import Base Status History Getargs StatusP HistoryP GetargsP.
+   The theorems C04_getargs_* are about whole runs over tasks that take values from other tasks
+   (getargs / result_dep; Model/Getargs.v).
+   The last part (C04_second_run_noop, C04_getargs_second_run_noop; Proofs/RerunP.v, RerunGP.v) is about the WHOLE repeated run:
+   every decision of the 2nd, 3rd, ... run, and the DB they leave. *)
+From DoitV Require Import Base Status History Getargs StatusP HistoryP GetargsP RerunP RerunGP.
 Open Scope Z_scope.
 
 (* converse of C03_uptodate_sound: in the state reached by ANY history, if no uptodate item is
@@ -247,3 +249,194 @@ Example C04_getargs_provider_reexecuted :
   vget (get_values (s_db (ra_s a)) 0%N) (k_result 1%N) = Some (Some 2%N) /\
   gs_out (grun (fun c => c) (fun _ => 4) current (l ++ [GRun [0] []; GRun [0] []])%N) = [1; 0; 0; 0; -8;  1; 0; 0; 0; -8;  0; 2; -8].
 Proof. vm_compute. repeat split; auto. Qed.
+
+(* ================= the WHOLE repeated run is a no-op (Proofs/RerunP.v, Proofs/RerunGP.v) =================
+
+   A DB record holds a function (file -> saved state), so "the same record" is extensional: [rec_eq] = every field equal, the saved
+   states pointwise; [db_equiv] = the same keys with [rec_eq] records.  Equivalent DBs have the same observation [db_z] (what the
+   harness compares).  For the tasks that are NOT executed the record is literally the same (Leibniz).
+   In these models what an execution writes is a function of the definition (act_values / act_result) and of the providers'
+   results at that moment: an always-running task rewrites the same values and the same result, so even ITS record is equivalent
+   after every repeated run, and no later task of the same run sees anything new.  That is the hypothesis "the always-running tasks
+   produce the same results as before", built into Model/Status.v. *)
+
+(* run_all of History.v (no setup-tasks).  After ANY FS-fresh history, over ANY list ts of distinct tasks in which a result_dep
+   provider comes before its consumers or is not listed ([providers_first]: doit runs a task_dep first), every file dep and target of
+   these tasks exists (nothing fails, no task is `error`): let s1 be the state after the first run and sn the state after n more runs.
+   (a) every decision of run n+2 (task t reached after the prefix pre was processed) is the decision `executes` makes in s1, and for a
+       task that is not ignored that is: NOT executed <-> no item false and a file_dep or an evaluated item (C04_rerun_idempotent);
+   (b) the records of the tasks that are not executed (and of all tasks outside ts) are literally those of s1;
+   (c) the whole DB after n more runs is equivalent to the one of s1, with the same observation: the state after the first run is a
+       fixed point. *)
+Theorem C04_second_run_noop : forall (md5 : N -> N) (size_of : N -> Z) (ops : list op) (ts : list name),
+  hist_ok md5 size_of current ops = true ->
+  let s0 := run md5 size_of current ops in
+  NoDup ts -> providers_first (s_defs s0) ts ->
+  (forall t f, In t ts -> In f (file_dep (s_defs s0 t)) -> exists_ (s_fs s0) f = true) ->
+  (forall t x, In t ts -> In x (targets (s_defs s0 t)) -> exists_ (s_fs s0) x = true) ->
+  let s1 := run_all md5 size_of current s0 ts in
+  forall n, let sn := Nat.iter n (fun s => run_all md5 size_of current s ts) s1 in
+  (forall pre t post, ts = pre ++ t :: post ->
+     executes md5 current (run_all md5 size_of current sn pre) t false = executes md5 current s1 t false /\
+     (status_is_ignore (s_db s1) t = false ->
+      (executes md5 current s1 t false = false <->
+         (forall u, In u (uptodate (s_defs s1 t)) -> eval_utd (s_db s1) t u <> Some false) /\
+         (file_dep (s_defs s1 t) <> [] \/ exists u b, In u (uptodate (s_defs s1 t)) /\ eval_utd (s_db s1) t u = Some b)))) /\
+  (forall x, executes md5 current s1 x false = false \/ ~ In x ts -> s_db sn x = s_db s1 x) /\
+  db_equiv (s_db sn) (s_db s1) /\
+  (forall tasks files, db_z tasks files (s_db sn) = db_z tasks files (s_db s1)).
+Proof.
+  intros md5 size_of ops ts Hf.
+  exact (rerun_whole md5 size_of current eq_refl eq_refl _ ts (run_inv md5 size_of current eq_refl ops Hf)).
+Qed.
+Print Assumptions C04_second_run_noop.
+
+(* non-vacuity: a task with file deps and a target (7), a run_once + config_changed task (8), a task without any dependency (9: runs every
+   time, produces a value and a result).  The first run executes all three; the second and the third execute 9 only; same DB observation *)
+Definition e3_file : tdef := {| file_dep := [0; 1]%N; targets := [2%N]; uptodate := []; act_values := []; act_result := Some 1%N |}.
+Definition e3_once : tdef := {| file_dep := []; targets := []; uptodate := [URunOnce; UConfig 3]; act_values := []; act_result := None |}.
+Definition e3_always : tdef := {| file_dep := []; targets := []; uptodate := []; act_values := [(2%N, Some 5%N)]; act_result := Some 4%N |}.
+Definition e3_ops : list op := [Write 0 0; Write 1 1; Write 2 2; SetDef 7 e3_file; SetDef 8 e3_once; SetDef 9 e3_always]%N.
+
+Example C04_second_run_nonvacuous :
+  let md5 := fun c : N => c in let size_of := fun _ : N => 4 in let ts := [7; 8; 9]%N in
+  let s0 := run md5 size_of current e3_ops in
+  let s1 := run_all md5 size_of current s0 ts in
+  let s2 := run_all md5 size_of current s1 ts in
+  hist_ok md5 size_of current e3_ops = true /\ NoDup ts /\ providers_first (s_defs s0) ts /\
+  (forall t f, In t ts -> In f (file_dep (s_defs s0 t)) -> exists_ (s_fs s0) f = true) /\
+  (forall t x, In t ts -> In x (targets (s_defs s0 t)) -> exists_ (s_fs s0) x = true) /\
+  map (fun t => executes md5 current s0 t false) ts = [true; true; true] /\
+  [executes md5 current s1 7%N false; executes md5 current (run_all md5 size_of current s1 [7%N]) 8%N false;
+   executes md5 current (run_all md5 size_of current s1 [7; 8]%N) 9%N false] = [false; false; true] /\
+  [executes md5 current s2 7%N false; executes md5 current (run_all md5 size_of current s2 [7%N]) 8%N false;
+   executes md5 current (run_all md5 size_of current s2 [7; 8]%N) 9%N false] = [false; false; true] /\
+  db_z ts [0; 1; 2]%N (s_db s2) = db_z ts [0; 1; 2]%N (s_db s1).
+Proof.
+  cbv zeta. split; [vm_compute; reflexivity|].
+  split; [repeat (constructor; [simpl; intuition discriminate|]); constructor|].
+  split; [simpl; repeat match goal with |- _ /\ _ => split end; try exact I; intros src H; simpl in H; repeat (destruct H as [H|H]; [discriminate|]); destruct H|].
+  split; [intros t f [<-|[<-|[<-|[]]]]; vm_compute; intros H; repeat (destruct H as [<-|H]; [reflexivity|]); destruct H|].
+  split; [intros t f [<-|[<-|[<-|[]]]]; vm_compute; intros H; repeat (destruct H as [<-|H]; [reflexivity|]); destruct H|].
+  vm_compute. repeat split.
+Qed.
+
+(* [providers_first] is needed: with the consumer 8 (result_dep on 9) listed BEFORE its provider 9 (no dependency: always runs), the first
+   run saves "9 has no result" for 8, the second run executes 8 again -- although in the state it leaves 8 is up-to-date -- and only the third
+   run skips it.  In the order doit uses (task_dep first) the second run already skips it. *)
+Definition e3_cons : tdef := {| file_dep := []; targets := []; uptodate := [UResultDep 9%N]; act_values := []; act_result := None |}.
+Example C04_second_run_order_needed :
+  let md5 := fun c : N => c in let size_of := fun _ : N => 4 in
+  let s0 := run md5 size_of current [SetDef 8 e3_cons; SetDef 9 e3_always]%N in
+  let s1 := run_all md5 size_of current s0 [8; 9]%N in
+  let s2 := run_all md5 size_of current s1 [8; 9]%N in
+  let s1' := run_all md5 size_of current s0 [9; 8]%N in
+  ~ providers_first (s_defs s0) [8; 9]%N /\ providers_first (s_defs s0) [9; 8]%N /\
+  executes md5 current s1 8%N false = true /\ executes md5 current s2 8%N false = false /\
+  executes md5 current s1' 9%N false = true /\ executes md5 current (run_all md5 size_of current s1' [9%N]) 8%N false = false.
+Proof.
+  cbv zeta. split.
+  { simpl. intros [H _]. destruct (H 9%N) as [_ H9]; [left; reflexivity|]. apply H9. left; reflexivity. }
+  split.
+  { simpl. repeat match goal with |- _ /\ _ => split end; try exact I; intros src H; simpl in H.
+    - destruct H.
+    - destruct H as [H|[]]. inversion H; subst. split; [discriminate | intros []]. }
+  vm_compute. repeat split.
+Qed.
+
+(* the serial runner with getargs / setup-tasks / result_dep (Model/Getargs.v): `doit run --continue sel` after ANY FS-fresh run-level
+   history l, then the same command again, any number of times.  Hypotheses on the FIRST run a1 (all decidable):
+     - it ended with both flags clear (no cycle, fuel sufficed) and nothing failed: every final code is 0 (executed+saved) or 2 (up-to-date);
+     - LAZY: every task it skipped as up-to-date is still up-to-date in the state it left.  This is the one restriction: a getargs provider
+       is a SETUP-task, visited only when its consumer is not up-to-date; a consumer that was checked (and skipped) BEFORE its provider was
+       executed later in the same run with another result is stale afterwards, and the next run executes it -- a chain of such consumers
+       settles one level per run (C04_getargs_lazy_chain below).  The hypothesis holds e.g. when no task was skipped, or when providers
+       are selected before their consumers;
+     - no finished task is ignored, and the targets of the finished tasks exist.
+   Then for every later run ak (k = 0: the second run):
+     (a) a task it executes (code 0) was executed by the first run as well and `executes` says so in the state s1 the first run left --
+         C04_getargs_rerun characterises that: an item other than result_dep is false, or a provider's record holds no result, or there is
+         no file_dep and no evaluated item; every other task it reaches is skipped as up-to-date (code 2): nothing fails, nothing else runs;
+     (b)+(c) the DB it leaves is equivalent to the one of s1 (same observation), and the next run reports exactly the same list of
+         (task, code) with the same flags: s1 is a fixed point. *)
+Theorem C04_getargs_second_run_noop : forall (md5 : N -> N) (size_of : N -> Z) (l : list gop) (sel : list name),
+  ghist_ok md5 size_of current l = true ->
+  let g := grun md5 size_of current l in
+  let a1 := run_after md5 size_of current l sel [] in
+  let s1 := ra_s a1 in
+  ra_cyc a1 = false -> ra_fuel a1 = false ->
+  (forall t c, fin_of (ra_fin a1) t = Some c -> c = 0 \/ c = 2) ->
+  (forall t, fin_of (ra_fin a1) t = Some 2 -> g_status (check md5 current s1 t) = UpToDate) ->
+  (forall t, fin_of (ra_fin a1) t <> None -> status_is_ignore (s_db s1) t = false) ->
+  (forall t x, fin_of (ra_fin a1) t <> None -> In x (targets (eff (gs_defs g t))) -> exists_ (s_fs (gs_s g)) x = true) ->
+  forall k,
+  let ak := run_after md5 size_of current (l ++ repeat (GRun sel []) (S k)) sel [] in
+  let ak' := run_after md5 size_of current (l ++ repeat (GRun sel []) (S (S k))) sel [] in
+  (forall t c, fin_of (ra_fin ak) t = Some c ->
+     (c = 0 /\ fin_of (ra_fin a1) t = Some 0 /\ executes md5 current s1 t false = true) \/
+     (c = 2 /\ fin_of (ra_fin a1) t <> None /\ executes md5 current s1 t false = false)) /\
+  db_equiv (s_db (ra_s ak)) (s_db s1) /\
+  (forall tasks files, db_z tasks files (s_db (ra_s ak)) = db_z tasks files (s_db s1)) /\
+  ra_fin ak' = ra_fin ak /\ ra_cyc ak' = ra_cyc ak /\ ra_fuel ak' = ra_fuel ak.
+Proof. intros md5 size_of. exact (getargs_rerun_noop md5 size_of current eq_refl eq_refl). Qed.
+Print Assumptions C04_getargs_second_run_noop.
+
+Ltac fin_cases H := cbn [fin_of] in H; repeat match type of H with context [N.eqb ?a ?b] => destruct (N.eqb a b) end; try discriminate.
+
+(* non-vacuity on e_gl (T0: file dep 0, getargs from T1; T1: file dep 1; T2: no dependency): the hypotheses hold for the first `doit`, the
+   second and third runs skip T0 and T1 and execute T2 *)
+Example C04_getargs_second_run_nonvacuous :
+  let md5 := fun c : N => c in let size_of := fun _ : N => 4 in let sel := [0; 1; 2]%N in
+  let a1 := run_after md5 size_of current e_gl sel [] in
+  ghist_ok md5 size_of current e_gl = true /\ ra_cyc a1 = false /\ ra_fuel a1 = false /\
+  (forall t c, fin_of (ra_fin a1) t = Some c -> c = 0 \/ c = 2) /\
+  (forall t, fin_of (ra_fin a1) t = Some 2 -> g_status (check md5 current (ra_s a1) t) = UpToDate) /\
+  (forall t, fin_of (ra_fin a1) t <> None -> status_is_ignore (s_db (ra_s a1)) t = false) /\
+  ra_fin a1 = [(1%N, 0); (0%N, 0); (2%N, 0)] /\
+  ra_fin (run_after md5 size_of current (e_gl ++ repeat (GRun sel []) 1) sel []) = [(0%N, 2); (1%N, 2); (2%N, 0)] /\
+  ra_fin (run_after md5 size_of current (e_gl ++ repeat (GRun sel []) 2) sel []) = [(0%N, 2); (1%N, 2); (2%N, 0)].
+Proof.
+  intros md5 size_of sel a1.
+  assert (E : ra_fin a1 = [(1%N, 0); (0%N, 0); (2%N, 0)]) by (vm_compute; reflexivity).
+  assert (I0 : status_is_ignore (s_db (ra_s a1)) 0%N = false) by (vm_compute; reflexivity).
+  assert (I1 : status_is_ignore (s_db (ra_s a1)) 1%N = false) by (vm_compute; reflexivity).
+  assert (I2 : status_is_ignore (s_db (ra_s a1)) 2%N = false) by (vm_compute; reflexivity).
+  split; [vm_compute; reflexivity|]. split; [vm_compute; reflexivity|]. split; [vm_compute; reflexivity|].
+  clearbody a1.
+  split. { intros t c H; rewrite E in H; fin_cases H; inversion H; subst; auto. }
+  split. { intros t H; rewrite E in H; fin_cases H. }
+  split.
+  { intros t H. rewrite E in H. cbn [fin_of] in H.
+    destruct (N.eqb_spec 1 t) as [Et|_]; [subst t; exact I1|].
+    destruct (N.eqb_spec 0 t) as [Et|_]; [subst t; exact I0|].
+    destruct (N.eqb_spec 2 t) as [Et|_]; [subst t; exact I2|]. congruence. }
+  split; [exact E|]. vm_compute. split; reflexivity.
+Qed.
+
+(* the LAZY hypothesis is needed, and a chain of getargs consumers settles one level per run: T2 takes a value from T1, T1 from T0, the
+   consumers are selected first (sel = [2;1;0]).  After a first run that executes all three, T0's file and the results the definitions of T0
+   and T1 yield change.  Run A: T2 and T1 are checked first and skipped, then T0 executes (fully successful, but T1 is stale at its end:
+   the hypothesis fails).  Run B executes T1 only, run C executes T2 only, runs D and E execute nothing.  From the history that ends with
+   run B on, the hypothesis holds (run C is the first run of the theorem). *)
+Definition ch_t0 (r : N) : rdef :=
+  {| rd_def := {| file_dep := [0%N]; targets := []; uptodate := []; act_values := [(2%N, Some 5%N)]; act_result := Some r |}; rd_getargs := [] |}.
+Definition ch_t1 (r : N) : rdef :=
+  {| rd_def := {| file_dep := [1%N]; targets := []; uptodate := []; act_values := [(2%N, Some 6%N)]; act_result := Some r |}; rd_getargs := [(0, 0)]%N |}.
+Definition ch_t2 : rdef :=
+  {| rd_def := {| file_dep := [2%N]; targets := []; uptodate := []; act_values := []; act_result := None |}; rd_getargs := [(1, 0)]%N |}.
+Definition ch_l : list gop :=
+  [GP (Write 0 0); GP (Write 1 1); GP (Write 2 2); GSetDef 0 (ch_t0 1); GSetDef 1 (ch_t1 1); GSetDef 2 ch_t2; GRun [2; 1; 0] [];
+   GP (Write 0 7); GSetDef 0 (ch_t0 2); GSetDef 1 (ch_t1 2)]%N.
+
+Example C04_getargs_lazy_chain :
+  let md5 := fun c : N => c in let size_of := fun _ : N => 4 in let sel := [2; 1; 0]%N in
+  let aA := run_after md5 size_of current ch_l sel [] in
+  ghist_ok md5 size_of current ch_l = true /\ ra_cyc aA = false /\ ra_fuel aA = false /\
+  ra_fin aA = [(2%N, 2); (1%N, 2); (0%N, 0)] /\
+  g_status (check md5 current (ra_s aA) 1%N) = Run /\
+  gs_out (grun md5 size_of current (ch_l ++ repeat (GRun sel []) 5))
+    = [0; 0; 1; 0; 2; 0; -8;   2; 2; 1; 2; 0; 0; -8;   2; 2; 0; 2; 1; 0; -8;   1; 2; 2; 0; 0; 2; -8;   2; 2; 1; 2; 0; 2; -8;   2; 2; 1; 2; 0; 2; -8] /\
+  let aC := run_after md5 size_of current (ch_l ++ repeat (GRun sel []) 2) sel [] in
+  ra_fin aC = [(1%N, 2); (2%N, 0); (0%N, 2)] /\
+  map (fun t => g_status (check md5 current (ra_s aC) t)) [1; 0]%N = [UpToDate; UpToDate].
+Proof. vm_compute. repeat split. Qed.
